@@ -119,6 +119,11 @@ class Prop:
             for delta in (0.0002, -0.0002):
                 if d + delta > 0:
                     out.append('D:%d:%d:%d' % (micro(ref[0]), micro(ref[1]), int(round((d + delta) * 1e9))))
+        # circles around the exact antipode of a position (half the globe away: the arc-sine form of the haversine is at
+        # the very end of its domain there, other forms fall off it)
+        for la, lo in (rng.sample(pos, min(8, len(pos))) if pos else []):
+            alo = lo - 180.0 if lo > 0 else lo + 180.0
+            out.append('D:%d:%d:%d' % (micro(-la), micro(alo), rng.choice([1, 512 * 20000, 512 * 25000]) * UNIT))
         if pos:
             la, lo = rng.choice(pos)
             out.append('D:%d:%d:0' % (micro(la), micro(lo)))              # strictness: distance 0 is not < 0
